@@ -72,6 +72,10 @@ type recQueue struct {
 	log   *wlog
 	yield yieldFn
 	tag   func() string
+	// busy counts batches that have been taken out of the queue and not yet acknowledged / returned; it is raised BEFORE the
+	// inner Remove and lowered AFTER the ack / nack event has been logged, so that "queue empty and busy == 0" means that no
+	// operation is anywhere between the queue and the log
+	busy int32
 }
 
 func newRecQueue(l *wlog, y yieldFn) *recQueue {
@@ -112,7 +116,11 @@ func (q *recQueue) Peek(num uint) (operation.QueuedOperationsAtTime, error) {
 func (q *recQueue) Remove(num uint) (operation.QueuedOperationsAtTime, func() uint, func(error), error) {
 	q.yield("q.remove")
 	cs := q.log.next()
+	atomic.AddInt32(&q.busy, 1)
 	ops, ack, nack, err := q.inner.Remove(num)
+	if err != nil || ack == nil {
+		atomic.AddInt32(&q.busy, -1)
+	}
 	vers := make([]string, len(ops))
 	for i, o := range ops {
 		vers[i] = fmt.Sprint(o.ProtocolVersion)
@@ -123,12 +131,14 @@ func (q *recQueue) Remove(num uint) (operation.QueuedOperationsAtTime, func() ui
 			cs := q.log.next()
 			n := ack()
 			q.log.add(wev{Kind: "q.ack", N: int(n), CallSeq: cs})
+			atomic.AddInt32(&q.busy, -1)
 			return n
 		}, func(e error) {
 			q.yield("q.nack")
 			cs := q.log.next()
 			nack(e)
 			q.log.add(wev{Kind: "q.nack", CallSeq: cs})
+			atomic.AddInt32(&q.busy, -1)
 		}, err
 }
 
